@@ -144,7 +144,7 @@ def draw_point(rng, spec, n=6):
     return pt
 
 
-def draw_vectors(rng, spec, n):
+def draw_vectors(rng, spec, n, point_index=0):
     """Beam geometry (float64, metres) for vector arguments; exactly perpendicular g for the yz variant."""
     out = {}
     names = [a.name for a in spec.args if a.vector]
@@ -152,7 +152,8 @@ def draw_vectors(rng, spec, n):
         return out
     if 'gravity' in names:
         out['gravity'] = np.array([0.0, -9.8125, 0.0])
-        tilt = 0.0 if spec.name == 'scattering_angle_in_yz_plane' or rng.random() < 0.5 else 0.25
+        # alternate between the two implementations (perpendicular / tilted incident beam) point by point
+        tilt = 0.0 if spec.name == 'scattering_angle_in_yz_plane' or point_index % 2 == 0 else 0.25
         out['incident_beam'] = np.array([0.0, 8.0 * np.sin(tilt), 8.0 * np.cos(tilt)]) if tilt else np.array([0.0, 0.0, 8.0])
         d = rng.normal(size=(n, 3))
         d[:, 2] = np.abs(d[:, 2]) + 0.5
@@ -230,10 +231,10 @@ def inelastic_cond(kind, kw):
     return t, t0, E, other
 
 
-def run_kernel_grid(rng, ctx, spec, fn, cells, tier, mon):
+def run_kernel_grid(rng, ctx, spec, fn, cells, tier, mon, point_index=0):
     n = 6
     pt = draw_point(rng, spec, n)
-    vecs = draw_vectors(rng, spec, n)
+    vecs = draw_vectors(rng, spec, n, point_index)
     # inelastic: keep arrival well above t0 so that the definition is well conditioned (cond <= ~5)
     if spec.cond == 'inelastic':
         m = si.constants()['m_n']
@@ -405,13 +406,13 @@ def run(shard, ctx):
             budget = shard['cells']
             points = int(min(40, max(shard['points'], budget // max(total, 1))))
             k = min(total, max(1, budget // points))
-            for _ in range(points):
+            for ipt in range(points):
                 if k < total:
                     idx = rng.choice(total, size=k, replace=False)
                     sub = [cells[i] for i in idx]
                 else:
                     sub = cells
-                run_kernel_grid(rng, ctx, spec, fn, sub, shard['tier'], mon)
+                run_kernel_grid(rng, ctx, spec, fn, sub, shard['tier'], mon, ipt)
             full[name] = {'grid_cells': total, 'cells_per_point': k, 'points': points,
                           'grid_complete_per_point': k == total}
     ctx.extra['grid_' + '_'.join(shard['kernels'])] = full
